@@ -1,6 +1,8 @@
 //! Harness codecs for the per-stream tables: flat scripts of string writes (C09) and an object
 //! graph codec built on the public reference-tracking API (C10).
 use crate::err::{guarded, Out};
+use desert::adt::{AdtDeserializer, AdtMetadata, AdtSerializer};
+use desert::Evolution;
 use desert::{
     BinaryDeserializer, BinaryInput, BinaryOutput, BinarySerializer, DeduplicatedString, DeserializationContext,
     Result, SerializationContext,
@@ -171,6 +173,135 @@ pub fn first_ref_resolves(bytes: &[u8]) -> Out<bool> {
         Ok(ctx.try_read_ref()?.is_some())
     })
     .0
+}
+
+/// where the graph sits in the stream: alone, or as a field of a record written through the real
+/// `Adt*` API (the way the derive macro's expansion does it)
+#[derive(Clone, Copy, Debug, PartialEq, Eq)]
+pub enum GraphPlace {
+    Top,
+    /// `{ pre: u8 = 7, g, post: u8 = 9 }`, no evolution steps
+    V0Field,
+    /// `{ pre, g, post, extra: u8 = 5 }` with `FieldAdded("extra")`: the graph is in chunk 0
+    EvolvedChunk0,
+    /// `{ pre, g, post }` with `FieldAdded("g")`: the graph is in chunk 1
+    EvolvedChunk1,
+}
+
+pub const GRAPH_PLACES: [GraphPlace; 4] = [GraphPlace::Top, GraphPlace::V0Field, GraphPlace::EvolvedChunk0, GraphPlace::EvolvedChunk1];
+
+fn place_metadata(place: GraphPlace) -> AdtMetadata {
+    let mut steps = vec![Evolution::InitialVersion];
+    match place {
+        GraphPlace::EvolvedChunk0 => steps.push(Evolution::FieldAdded { name: "extra".into() }),
+        GraphPlace::EvolvedChunk1 => steps.push(Evolution::FieldAdded { name: "g".into() }),
+        _ => {}
+    }
+    AdtMetadata::new(steps)
+}
+
+struct Placed<'a, T> {
+    x: &'a T,
+    place: GraphPlace,
+}
+
+impl<T: BinarySerializer> BinarySerializer for Placed<'_, T> {
+    fn serialize<O: BinaryOutput>(&self, ctx: &mut SerializationContext<O>) -> Result<()> {
+        if self.place == GraphPlace::Top {
+            return self.x.serialize(ctx);
+        }
+        let md = place_metadata(self.place);
+        let mut s = if self.place == GraphPlace::V0Field { AdtSerializer::new_v0(&md, ctx) } else { AdtSerializer::new(&md, ctx) };
+        s.write_field("pre", &7u8)?;
+        s.write_field("g", self.x)?;
+        s.write_field("post", &9u8)?;
+        if self.place == GraphPlace::EvolvedChunk0 {
+            s.write_field("extra", &5u8)?;
+        }
+        s.finish()
+    }
+}
+
+/// any codec's value at a placement (see `GraphPlace`)
+pub fn encode_at<T: BinarySerializer>(x: &T, place: GraphPlace) -> Out<Vec<u8>> {
+    guarded(|| desert::serialize_to_byte_vec(&Placed { x, place })).0
+}
+
+fn read_at<T: BinaryDeserializer>(ctx: &mut DeserializationContext<'_>, place: GraphPlace) -> Result<T> {
+    if place == GraphPlace::Top {
+        return T::deserialize(ctx);
+    }
+    let md = place_metadata(place);
+    let stored_version = ctx.read_u8()?;
+    let mut d = if stored_version == 0 { AdtDeserializer::new_v0(&md, ctx)? } else { AdtDeserializer::new(&md, ctx, stored_version)? };
+    let pre: u8 = d.read_field("pre", None)?;
+    let g: T = d.read_field("g", None)?;
+    let post: u8 = d.read_field("post", None)?;
+    let extra: u8 = if place == GraphPlace::EvolvedChunk0 { d.read_field("extra", None)? } else { 5 };
+    if (pre, post, extra) != (7, 9, 5) {
+        return Err(desert::Error::DeserializationFailure(format!("the sibling fields read back as pre={pre} post={post} extra={extra}")));
+    }
+    Ok(g)
+}
+
+pub fn decode_at<T: BinaryDeserializer>(bytes: &[u8], place: GraphPlace) -> Out<T> {
+    guarded(|| {
+        let mut ctx = DeserializationContext::new(bytes);
+        read_at::<T>(&mut ctx, place)
+    })
+    .0
+}
+
+/// the bytes the format prescribes for a value whose own encoding is `inner`, at a placement
+pub fn frame_at(inner: &[u8], place: GraphPlace) -> Vec<u8> {
+    use refmodel::wire::vari;
+    match place {
+        GraphPlace::Top => inner.to_vec(),
+        GraphPlace::V0Field => [&[0u8, 7][..], inner, &[9]].concat(),
+        GraphPlace::EvolvedChunk0 => {
+            let c0 = [&[7u8][..], inner, &[9]].concat();
+            [&[1u8][..], &vari(c0.len() as i32), &vari(1), &c0, &[5]].concat()
+        }
+        GraphPlace::EvolvedChunk1 => [&[1u8][..], &vari(2), &vari(inner.len() as i32), &[7, 9], inner].concat(),
+    }
+}
+
+/// a decoded graph as a field value; frees its cycles when dropped unless taken over
+struct GraphD {
+    root: Option<Rc<Node>>,
+    all: Vec<Rc<Node>>,
+}
+
+impl Drop for GraphD {
+    fn drop(&mut self) {
+        for n in &self.all {
+            n.edges.borrow_mut().clear();
+        }
+    }
+}
+
+impl BinaryDeserializer for GraphD {
+    fn deserialize(ctx: &mut DeserializationContext<'_>) -> Result<Self> {
+        let mut d = GraphD { root: None, all: Vec::new() };
+        let r = read_node(ctx, &mut d.all)?;
+        d.root = Some(r);
+        Ok(d)
+    }
+}
+
+pub fn graph_encode_at(g: &Graph, place: GraphPlace) -> Out<Vec<u8>> {
+    encode_at(g, place)
+}
+
+pub fn graph_decode_at(bytes: &[u8], place: GraphPlace) -> Out<Decoded> {
+    if place == GraphPlace::Top {
+        return graph_decode(bytes);
+    }
+    decode_at::<GraphD>(bytes, place).map(|mut g| {
+        let all = std::mem::take(&mut g.all);
+        let root = g.root.take().expect("root");
+        Decoded { root, all }
+    })
 }
 
 pub fn graph_encode(g: &Graph) -> Out<Vec<u8>> {
